@@ -153,10 +153,15 @@ Proof. vm_compute. reflexivity. Qed.
 (* the minus alternative of the number branch is dead: an operator token, then the number *)
 Example c08_ex6 : xl_lex b#"1 -2" = Ok [XT XNumber b#"1"; XT XOp b#"-"; XT XNumber b#"2"].
 Proof. vm_compute. reflexivity. Qed.
-(* trees the parser cannot produce are excluded by pp_wf: attribute access after an index *)
-Example c08_ex7 : pp_wf (EAttr (EItem (EVar b#"a") (ELit (LInt 0))) b#"b") = false /\
-                  xp_parse_src b#"a[0].b" = Err EParse.
-Proof. split; vm_compute; reflexivity. Qed.
+(* attribute access after an index or a parenthesis; a sign binds tighter than the postfix operators *)
+Example c08_ex7 : xp_parse_src b#"a[0].b" = Ok (EAttr (EItem (EVar b#"a") (ELit (LInt 0))) b#"b") /\
+                  pp_src_min (EAttr (EUn UNeg (EVar b#"a")) b#"b") = b#"( - a ) . b" /\
+                  xp_parse_src b#"-a.b" = Ok (EUn UNeg (EAttr (EVar b#"a") b#"b")).
+Proof. repeat split; vm_compute; reflexivity. Qed.
+(* a literal that ends in an escaped backslash ends at its second quote *)
+Example c08_ex7b : xl_lex [x27; x61; x5c; x5c; x27; x7e; x27; x62; x27]
+                   = Ok [XT XString [x61; x5c; x5c]; XT XOp b#"~"; XT XString b#"b"].
+Proof. vm_compute. reflexivity. Qed.
 (* short circuit: the right operand may even fail *)
 Example c08_ex8 : spec_eval [] (EBin BOr (ELit (LBool true)) (EBin BDiv (ELit (LInt 1)) (ELit (LInt 0)))) = Ok (VBool true).
 Proof. reflexivity. Qed.
